@@ -695,6 +695,44 @@ def gen_flatten(rng, tier):
     return lines
 
 
+def gen_pending(rng, tier):
+    """Q lines: 1-4 pending put requests of one rank (fixed and record variables of 1-4 dims with pairwise
+    different extents; a multi-record request appears as several non-lead requests of one lead)"""
+    lines = []
+    sizes = [2, 3, 4, 5, 7]
+    for _ in range(12000 if tier == 'thorough' else 2500):
+        nreq_lead = rng.range(1, 4)
+        recsize = 4 * rng.range(30, 200)
+        parts, lead = [], 0
+        for _l in range(nreq_lead):
+            nd = rng.range(1, 4)
+            isrec = 1 if rng.chance(3, 5) else 0
+            shape = rng.shuffle(sizes)[:nd]
+            xsz = rng.choice([1, 2, 4, 8])
+            begin = 4 * rng.range(10, 400)
+            st, ct, sd = [], [], []
+            for i, n in enumerate(shape):
+                ext = 6 if (isrec and i == 0) else n
+                s = rng.range(0, ext - 1)
+                c = rng.range(1, min(ext - s, 3))
+                k = rng.range(1, max(1, (ext - 1 - s) // (c - 1))) if c > 1 else 1
+                st.append(s); ct.append(c); sd.append(k)
+            null_stride = all(k == 1 for k in sd) and rng.chance(1, 2)
+            recs = [st[0] + j * sd[0] for j in range(ct[0])] if isrec else [None]
+            for r in recs:
+                if len(parts) >= 14:
+                    break
+                s2, c2, k2 = list(st), list(ct), list(sd)
+                if r is not None:
+                    s2[0], c2[0] = r, 1          # the queue splits a multi-record request: one record per non-lead request
+                v = lambda tag, x: tag + ' ' + ' '.join(str(y) for y in x)
+                parts.append('%d %d %d %d %d %s %s %s %s' % (lead, isrec, begin, xsz, nd, ' '.join(str(x) for x in shape),
+                                                           v('S', s2), v('C', c2), 'TN' if null_stride else v('T', k2)))
+            lead += 1
+        lines.append('Q %d %d %s' % (recsize, len(parts), ' '.join(parts)))
+    return lines
+
+
 def gen_merge(rng, tier):
     """-> (line, disjoint?) : inputs of 1-4 ranks, offsets/lengths in multiples of 4"""
     out = []
@@ -742,9 +780,22 @@ def run_intra(V, tree, wd, drv, rng, tier):
     exe = build_intra_harness(tree, wd)
     flines = gen_flatten(rng, tier)
     mcases = gen_merge(rng, tier)
-    lines = flines + [m[0] for m in mcases]
+    qlines = gen_pending(rng, tier)
+    lines = flines + qlines + [m[0] for m in mcases]
     # the Lean driver wants an explicit stride vector
     def lean_line(l):
+        if l.startswith('Q '):
+            tk, out, i = l.split(), [], 3
+            out = tk[:3]
+            for _r in range(int(tk[2])):
+                nd = int(tk[i + 4])
+                n = 5 + nd + 2 * (1 + nd)
+                out += tk[i:i + n]
+                if tk[i + n] == 'TN':
+                    out += ['T'] + ['1'] * nd; i += n + 1
+                else:
+                    out += tk[i + n:i + n + 1 + nd]; i += n + 1 + nd
+            return ' '.join(out)
         if l.endswith(' TN'):
             nd = int(l.split()[5])
             return l[:-3] + ' T' + ' 1' * nd
@@ -762,7 +813,39 @@ def run_intra(V, tree, wd, drv, rng, tier):
         if line in seen:
             continue
         seen.add(line)
-        if line.startswith('F '):
+        if line.startswith('Q '):
+            ct_ = co[i].split()
+            m = re.match(r'p=(\S+) e=(\S+)$', lo[i])
+            if len(ct_) != 3 or not m:
+                tie_diffs.append((line, co[i][:200], lo[i][:200])); continue
+            cpairs = [] if ct_[2] == '-' else [tuple(map(int, x.split(':'))) for x in ct_[2].split(',')]
+            mpairs = [] if m.group(1) == '-' else [tuple(map(int, x.split(':'))) for x in m.group(1).split(',')]
+            spec = [] if m.group(2) == '-' else list(map(int, m.group(2).split(',')))
+            # element size per pair: follow the model's pair list request by request (same count when correct);
+            # compare byte ranges instead: bytes covered by the C pairs in order vs bytes of the specified elements
+            tk, i2, xs_of = line.split(), 3, []
+            for _r in range(int(tk[2])):
+                nd_ = int(tk[i2 + 4]); xs_ = int(tk[i2 + 3])
+                n_ = 5 + nd_ + 2 * (1 + nd_)
+                cnt = 1
+                for c_ in tk[i2 + 5 + nd_ + 1 + nd_ + 1:i2 + 5 + nd_ + 1 + nd_ + 1 + nd_]:
+                    cnt *= int(c_)
+                xs_of += [xs_] * cnt
+                i2 += n_ + (1 if tk[i2 + n_] == 'TN' else 1 + nd_)
+            want_bytes = [b for o, x in zip(spec, xs_of) for b in range(o, o + x)]
+            got_bytes = [b for o, l in cpairs for b in range(o, o + l)]
+            nrec = sum(1 for r_ in range(int(tk[2])))
+            tag = 'intra:flatten_reqs:%dreq' % int(tk[2])
+            dist[tag] = dist.get(tag, 0) + 1
+            distinct.add(line)
+            if int(ct_[0]) != 0 or got_bytes != want_bytes or int(ct_[1]) != len(cpairs):
+                prop_fail.append(('C15:intra:flatten_reqs:pending-requests',
+                                  'flatten_reqs (nonblocking intra-node aggregation) emits offset-length pairs that do not cover exactly the elements of the pending requests in queue order: '
+                                  'bytes %s..., specified %s...' % (got_bytes[:12], want_bytes[:12]),
+                                  dict(stream='intra-flatten_reqs', line=line, c_pairs=cpairs[:60], spec_offsets=spec[:100], model_pairs=mpairs[:60])))
+            elif cpairs != mpairs:
+                tie_diffs.append((line, 'pairs', cpairs[:20], mpairs[:20]))
+        elif line.startswith('F '):
             t = line.split()
             isrec, xsz, nd = int(t[1]), int(t[3]), int(t[5])
             ct_ = co[i].split()
@@ -817,7 +900,7 @@ def run_intra(V, tree, wd, drv, rng, tier):
             if cs != ms or cf != mf or cw != mw:
                 tie_diffs.append((line, 'sorted/file pairs/wr_buf', (cs, cf, cw[:30]), (ms, mf, mw[:30])))
     return dict(prop_fail=prop_fail, tie_diffs=tie_diffs, n=len(seen), distinct=distinct, dist=dist,
-                samples=[flines[len(flines) // 2], mcases[0][0]])
+                samples=[flines[len(flines) // 2], qlines[0], mcases[0][0]])
 
 
 def _prefix(ins):
@@ -980,7 +1063,7 @@ def run_check(tier, seed):
                          'whole file dumped after every request. non-trivial = rejected by the real code, or accepted with a dimension on a boundary (count 0, start = extent, last index = extent-1, full extent); '
                          'api requests count when rejected, empty, or moving at least one element; distinct = distinct request lines; '
                          'intra: flatten_req on fixed and record variables of 1-4 dimensions with pairwise different extents, every in-bounds (start,count,stride) for 1-D/2-D, seeded for 3-D/4-D, '
-                         'NULL stride; aggregator merge on file-disjoint inputs of 1-4 ranks (interleaved / contiguous / random ownership, file- and memory-adjacent runs, out-of-order requests) and overlapping inputs')
+                         'NULL stride; flatten_reqs on 1-4 pending requests (1-14 non-lead requests, multi-record requests split per record) of fixed and record variables of 1-4 dims; aggregator merge on file-disjoint inputs of 1-4 ranks (interleaved / contiguous / random ownership, file- and memory-adjacent runs, out-of-order requests) and overlapping inputs')
         V.cov['distribution'] = dist
         V.cov['samples'] = [klines[0], klines[len(klines) // 3], klines[len(klines) // 2], klines[-1]] + \
                            ([script[3], script[len(script) // 2]] if len(script) > 4 else []) + I.get('samples', []) + \
